@@ -607,3 +607,66 @@ Section Main.
     - intros v Hv vs Hvs. now apply case_vcons.
   Qed.
 End Main.
+
+(* ------------------------------------------------------------------ root and default fuel *)
+Lemma vlen_object fs : vlen (VObject fs VNil) = 2 + fslen false fs.
+Proof. unfold vlen. cbn [flat_value length]. rewrite !app_length. cbn [length]. rewrite flat_fields_len. lia. Qed.
+Lemma vlen_array items : vlen (VArray items) = 2 + vslen items.
+Proof. unfold vlen. cbn [flat_value length]. rewrite !app_length. cbn [length]. rewrite flat_values_len. lia. Qed.
+Lemma fslen_cons k key op v fs :
+  fslen false (FCons (Field k key op v) fs) = S (length (op_toks false op)) + vlen v + fslen false fs.
+Proof.
+  unfold fslen at 1. cbn [flat_fields flat_field]. rewrite app_length. cbn [length].
+  rewrite app_length, flat_value_len, flat_fields_len. lia.
+Qed.
+Lemma vslen_cons v vs : vslen (VCons v vs) = vlen v + vslen vs.
+Proof. unfold vslen at 1. cbn [flat_values]. now rewrite app_length, flat_value_len, flat_values_len. Qed.
+
+Lemma cost_bound :
+  (forall v, core_value v = true -> cv v + 1 <= 2 * vlen v) /\
+  (forall f, match f with Field _ _ _ v => core_value v = true -> cv v + 1 <= 2 * vlen v | _ => True end) /\
+  (forall fs, core_fields fs = true -> cfs fs <= 2 * fslen false fs + 1) /\
+  (forall vs, core_values vs = true -> cvs vs <= 2 * vslen vs + 1).
+Proof.
+  apply doc_mutind.
+  - intros k s _. unfold vlen. cbn. lia.
+  - intros fs Hfs tl _ Hc. destruct tl; [|discriminate]. cbn [core_value] in Hc.
+    specialize (Hfs Hc). rewrite vlen_object. cbn [cv]. lia.
+  - intros items Hvs Hc. cbn [core_value] in Hc. specialize (Hvs Hc). rewrite vlen_array. cbn [cv]. lia.
+  - intros; discriminate.
+  - intros; discriminate.
+  - intros k key op v H. exact H.
+  - intros; exact I.
+  - intros; exact I.
+  - intros _. unfold fslen. cbn. lia.
+  - intros f Hf fs Hfs Hc. cbn [core_fields] in Hc. apply andb_prop in Hc as [H1 H2].
+    destruct f as [k key op v| |]; try discriminate. cbn [core_field] in H1.
+    specialize (Hf H1). specialize (Hfs H2). rewrite fslen_cons. cbn [cfs cf]. lia.
+  - intros _. unfold vslen. cbn. lia.
+  - intros v Hv vs Hvs Hc. cbn [core_values] in Hc. apply andb_prop in Hc as [H1 H2].
+    specialize (Hv H1). specialize (Hvs H2). rewrite vslen_cons. cbn [cvs]. lia.
+Qed.
+
+Theorem tape_root_spec decode pf F sh d fuel :
+  core_fields d = true -> cfs d + shape_size sh <= fuel ->
+  spec_value decode pf F sh d <> Err EC_UNFIT ->
+  de_root decode pf F (flatten d) fuel sh 0 (length (flatten d)) = spec_value decode pf F sh d.
+Proof.
+  intros Hc Hf Hne.
+  pose proof (proj1 (proj2 (proj2 (walk_all decode pf F (flatten d)))) d Hc 0 (length (flatten d))) as H.
+  assert (Hrem : rem_empty (flatten d) (length (flatten d))) by (left; apply nth_error_None; lia).
+  specialize (H (at_root _) eq_refl Hrem).
+  unfold spec_value, de_root in *.
+  destruct sh; try (now destruct Hne); cbn [thint_of wmode_of wmode_core] in *.
+  - rewrite H; auto. intros E. rewrite E in Hne. now apply Hne.
+  - rewrite H; auto. intros E. rewrite E in Hne. now apply Hne.
+Qed.
+
+Theorem tape_path_spec_core decode pf F sh d :
+  core_fields d = true -> fits decode pf F sh d ->
+  deser_tape decode pf F sh (flatten d) = spec_value decode pf F sh d.
+Proof.
+  intros Hc Hfit. unfold deser_tape. apply tape_root_spec; auto.
+  pose proof (proj1 (proj2 (proj2 cost_bound)) d Hc) as Hb.
+  unfold tape_fuel. change (length (flatten d)) with (fslen false d). lia.
+Qed.
